@@ -70,6 +70,7 @@ type searcher struct {
 	p        *vkit.Part
 	deadline time.Time
 	stopped  bool
+	reported map[string]bool
 	shared   map[[16]byte]uint8 // levels 0..split
 	mine     map[[16]byte]uint8 // seen by this worker below the split
 }
@@ -100,8 +101,14 @@ func (s *searcher) expand(st *state, depth int, account bool, seen map[[16]byte]
 			}
 			if r.v != nil {
 				if account {
-					p.Report(r.v.sig, r.v.desc+"  [program: "+progString(prog)+fmt.Sprintf(" pool_miss=%v on %s]", r.choices, c.Name), "seq "+c.Name,
-						replayInput{Cfg: c.Name, Prog: progString(prog), Miss: r.choices})
+					rp, rm, rd := prog, r.choices, r.v.desc
+					if !s.reported[r.v.sig] {
+						// first witness of this signature in this worker: shrink it
+						s.reported[r.v.sig] = true
+						rp, rm, rd = minimize(c, prog, r.choices, r.v)
+					}
+					p.Report(r.v.sig, rd+"  [program: "+progString(rp)+fmt.Sprintf(" pool_miss=%v on %s]", rm, c.Name), "seq "+c.Name,
+						replayInput{Cfg: c.Name, Prog: progString(rp), Miss: rm})
 					p.Case(true, 0, 1)
 					p.Count("violating_executions", 1)
 				}
@@ -172,7 +179,7 @@ func (s *searcher) level(front []*state, depth int, account bool, seen map[[16]b
 
 // search runs the BFS for one configuration up to maxDepth operations.
 func search(c *acfg, maxDepth, split int, sh *vkit.Shard, p *vkit.Part, deadline time.Time) {
-	s := &searcher{c: c, p: p, deadline: deadline, shared: map[[16]byte]uint8{}, mine: map[[16]byte]uint8{}}
+	s := &searcher{c: c, p: p, deadline: deadline, shared: map[[16]byte]uint8{}, mine: map[[16]byte]uint8{}, reported: map[string]bool{}}
 	owner := sh.Mine()
 	root := &state{}
 	r := execute(c, nil, nil, false)
@@ -195,9 +202,6 @@ func search(c *acfg, maxDepth, split int, sh *vkit.Shard, p *vkit.Part, deadline
 			return
 		}
 	}
-	if owner {
-		p.Count(fmt.Sprintf("depth completed %s", c.Name), 0)
-	}
 	if d >= maxDepth {
 		return
 	}
@@ -214,4 +218,129 @@ func search(c *acfg, maxDepth, split int, sh *vkit.Shard, p *vkit.Part, deadline
 			}
 		}
 	}
+}
+
+// Programs name handles by slot; for shrinking they are rewritten so that every operation
+// names the Malloc (by ordinal) that created its handle, which survives the removal of other
+// operations.
+type aop struct {
+	K   byte
+	Ord int
+	N   int
+}
+
+func toAbstract(prog []op) []aop {
+	var slotOrd [maxHandles]int
+	var live [maxHandles]bool
+	n := 0
+	out := make([]aop, 0, len(prog))
+	for _, o := range prog {
+		if o.K == 'M' {
+			for i, l := range live {
+				if !l {
+					live[i], slotOrd[i] = true, n
+					break
+				}
+			}
+			out = append(out, aop{'M', n, o.N})
+			n++
+			continue
+		}
+		out = append(out, aop{o.K, slotOrd[o.H], o.N})
+		if o.K == 'F' {
+			live[o.H] = false
+		}
+	}
+	return out
+}
+
+// fromAbstract re-derives the slots; ok=false when the program leaves the program space.
+func fromAbstract(ap []aop) (prog []op, ok bool) {
+	var slotOrd [maxHandles]int
+	var live [maxHandles]bool
+	find := func(ord int) int {
+		for i, l := range live {
+			if l && slotOrd[i] == ord {
+				return i
+			}
+		}
+		return -1
+	}
+	for _, a := range ap {
+		if a.K == 'M' {
+			slot := -1
+			for i, l := range live {
+				if !l {
+					slot = i
+					break
+				}
+			}
+			if slot < 0 {
+				return nil, false
+			}
+			live[slot], slotOrd[slot] = true, a.Ord
+			prog = append(prog, op{K: 'M', H: slot, N: a.N})
+			continue
+		}
+		h := find(a.Ord)
+		if h < 0 {
+			return nil, false
+		}
+		prog = append(prog, op{K: a.K, H: h, N: a.N})
+		if a.K == 'F' {
+			live[h] = false
+		}
+	}
+	return prog, true
+}
+
+// witness searches all pool answers of prog for a violation with the signature sig.
+func witness(c *acfg, prog []op, sig string) ([]int, *viol) {
+	stack := [][]int{nil}
+	for len(stack) > 0 {
+		pre := stack[len(stack)-1]
+		stack = stack[:len(stack)-1]
+		r := execute(c, prog, pre, true)
+		if r.v != nil && r.v.sig == sig {
+			return r.choices, r.v
+		}
+		for i := len(r.choices) - 1; i >= len(pre); i-- {
+			stack = append(stack, append(append([]int(nil), r.choices[:i]...), 1))
+		}
+	}
+	return nil, nil
+}
+
+// minimize removes operations (a Malloc together with everything done to its handle) one at a
+// time as long as some assignment of pool answers still produces the same signature (delta
+// removal; the result is 1-minimal).
+func minimize(c *acfg, prog []op, miss []int, v *viol) ([]op, []int, string) {
+	desc := v.desc
+	for again := true; again; {
+		again = false
+		ap := toAbstract(prog)
+		last := ap[len(ap)-1]
+		for i := 0; i < len(ap)-1; i++ { // the last (violating) operation stays
+			if ap[i].K == 'M' && ap[i].Ord == last.Ord {
+				continue
+			}
+			var cand []aop
+			for j, a := range ap {
+				if j == i || (ap[i].K == 'M' && a.Ord == ap[i].Ord) {
+					continue
+				}
+				cand = append(cand, a)
+			}
+			cp, ok := fromAbstract(cand)
+			if !ok {
+				continue
+			}
+			if m, w := witness(c, cp, v.sig); w != nil {
+				prog, miss, desc = cp, m, w.desc
+				again = true
+				break
+			}
+		}
+	}
+	return prog, miss, desc
 }
